@@ -423,6 +423,42 @@ class NoImportsClause(object):
         names = '+'.join(self.DECLS[i]['name'] for i in case['decls']) or 'values-only'
         return check_set([mod], ['TEST-MIB'], 'C04|no-imports|%s' % names)
 
+class EnumLengths(object):
+    name = 'enumerations-of-every-length'
+    describe = ('enumerations and BITS with 1, 2, 3 and 12 named numbers as the in-line SYNTAX of an object, of a type assignment and '
+                'of a TEXTUAL-CONVENTION, and as the refinement of a named enumerated type: the generated module executes and '
+                'agrees with JSON')
+
+    def blocks(self, tier):
+        return [{'n': n} for n in (1, 2, 3, 12)]
+
+    def cases(self, block, tier):
+        for where in ('object', 'type', 'tc', 'refined-object'):
+            for kind in ('enum', 'bits'):
+                if kind == 'bits' and where == 'refined-object':
+                    continue
+                yield {'n': block['n'], 'where': where, 'kind': kind}
+
+    def run_case(self, case):
+        n = case['n']
+        labels = [('label%d' % i, i + (1 if case['kind'] == 'enum' else 0)) for i in range(n)]
+        syn = ('simple', 'INTEGER', ('enum', labels)) if case['kind'] == 'enum' else ('bits', labels)
+        decls = C03.context()
+        if case['where'] == 'object':
+            decls.append(C03ot('theObj', syn, ['ctxRoot', 50]))
+        elif case['where'] == 'type':
+            decls += [{'k': 'type', 'name': 'TheType', 'syntax': syn}, C03ot('theObj', ('ref', 'TheType'), ['ctxRoot', 50])]
+        elif case['where'] == 'tc':
+            decls += [{'k': 'tc', 'name': 'TheType', 'display': None, 'status': 'current', 'descr': 'd', 'syntax': syn},
+                      C03ot('theObj', ('ref', 'TheType'), ['ctxRoot', 50])]
+        else:
+            full = [('label%d' % i, i + 1) for i in range(max(n, 2) + 1)]
+            decls += [{'k': 'type', 'name': 'TheType', 'syntax': ('simple', 'INTEGER', ('enum', full))},
+                      C03ot('theObj', ('ref', 'TheType', ('enum', labels)), ['ctxRoot', 50])]
+        mod = refir.finish_module({'name': 'TEST-MIB', 'decls': decls})
+        return check_set([mod], ['TEST-MIB'], 'C04|enum-length|%s|%s|n=%d' % (case['kind'], case['where'], n))
+
+
 class LoadTogether(object):
     name = 'sets-that-must-load-together'
     describe = ('module sets whose imports are legal but awkward for a loader, loaded with the REAL pysnmp MibBuilder after compiling: '
@@ -499,4 +535,4 @@ def _option_histories():
     return OptionHistories()
 
 
-FAMILIES = [Sequences(), CrossModule(), Identifiers(), TypeChains(), Texts(), AccessWords(), NoImportsClause(), LoadTogether(), _option_histories()]
+FAMILIES = [Sequences(), CrossModule(), Identifiers(), TypeChains(), Texts(), AccessWords(), NoImportsClause(), EnumLengths(), LoadTogether(), _option_histories()]
